@@ -311,6 +311,16 @@ func freshStorage(fn *ssa.Function, v ssa.Value, at ssa.Instruction, depth int) 
 		if x.Op != token.MUL {
 			return false, "computed pointer"
 		}
+		// a closure of a custom UnmarshalXML decodes into the receiver its method captured
+		if _, isFree := x.X.(*ssa.FreeVar); isFree && fn != nil {
+			root := fn
+			for root.Parent() != nil {
+				root = root.Parent()
+			}
+			if root.Name() == "UnmarshalXML" {
+				return true, ""
+			}
+		}
 		// pointer loaded from a field or local: every store to that place in this function must store fresh storage,
 		// and one such store must dominate the decode
 		var place ssa.Value = x.X
